@@ -880,9 +880,12 @@ def rule_G6(ctx, classes=('Sampler',), rid='G6'):
                 if not sa or sa[1] or sa[0] == ta[0]:
                     continue
                 w = _inplace_written(cls, sa[0]) + _inplace_written(cls, ta[0])
-                if not w:
-                    continue
                 n += 1
+                if not w:
+                    ctx.ob(rid, '%s:%s<-%s:snapshot-is-a-copy' % (m.qualname, ta[0], sa[0]), True,
+                           m.where(st), 'neither record is modified in place anywhere in %s'
+                           % cls.name)
+                    continue
                 ok = how == 'copy'
                 ctx.ob(rid, '%s:%s<-%s:snapshot-is-a-copy' % (m.qualname, ta[0], sa[0]), ok,
                        m.where(st),
@@ -899,7 +902,16 @@ def rule_T11(ctx, rid='T11'):
     empty: a guard around the removal loop is `np.any(<the loop's own selector>)` (or absent)."""
     ctx.rule(rid, 'prune-guard: the loop that removes unoccupied shells is guarded by nothing '
              'stronger than "some shell is unoccupied"')
-    f = ctx.program.func('Sampler.run')
+    n = 0
+    cls_ = ctx.program.cls('Sampler')
+    funcs = [m for k, m in cls_.methods.items() if k != '__init__']
+    for f in funcs:
+        n += _t11_in(ctx, rid, f)
+    ctx.require(n >= 1, 'T11: removal loop of unoccupied shells not found in Sampler')
+    return n
+
+
+def _t11_in(ctx, rid, f):
     par = {}
     for p in ast.walk(f.node):
         for c in ast.iter_child_nodes(p):
@@ -909,10 +921,17 @@ def rule_T11(ctx, rid='T11'):
         if not isinstance(lp, ast.For):
             continue
         sel = None
-        for c in ast.walk(lp.iter):
-            if isinstance(c, ast.Call) and (dotted(c.func) or '') in ('np.flatnonzero',
-                                                                      'np.where') and c.args:
-                sel = c.args[0]
+        its = [lp.iter]
+        for x in ast.walk(lp.iter):
+            if isinstance(x, ast.Name):
+                its += [st.value for st in walk_no_nested(f.node) if isinstance(st, ast.Assign)
+                        and len(st.targets) == 1 and isinstance(st.targets[0], ast.Name) and
+                        st.targets[0].id == x.id]
+        for it in its:
+            for c in ast.walk(it):
+                if isinstance(c, ast.Call) and (dotted(c.func) or '') in (
+                        'np.flatnonzero', 'np.where') and c.args:
+                    sel = c.args[0]
         pops = [c for c in ast.walk(lp) if isinstance(c, ast.Call) and
                 isinstance(c.func, ast.Attribute) and c.func.attr == 'pop' and
                 root_attr(c.func.value, f.self_name)]
@@ -948,5 +967,4 @@ def rule_T11(ctx, rid='T11'):
                'unoccupied shell survives the end of exploration (a shell without a sample: NaN '
                'statistics, and the sampling phase may never fill it)'
                % (unparse(bad)[:50], unparse(sel)))
-    ctx.require(n >= 1, 'T11: removal loop of unoccupied shells not found in Sampler.run')
     return n
